@@ -164,7 +164,15 @@ def _spec_forall_keys(ex, args, kwargs, s):
     yield s, BVal(z3.ForAll([k], z3.Implies(z3.And(*hyp), body)))
 
 
+def _lib_warn(ex, args, kwargs, s):
+    """warnings.warn: ghost effect warn(category); assumed not to raise (no -W error filter)."""
+    s.trace.append(("warn", args[1].name if len(args) > 1 and hasattr(args[1], "name") else "UserWarning"))
+    yield s, Val(smt.NONE, NONE_T)
+
+
 LIBRARY = {
+    "warnings.warn": _lib_warn,
+    "_warnings.warn": _lib_warn,
     "contracts.specrt.forall_keys": _spec_forall_keys,
     "copy.deepcopy": _lib_deepcopy,
     "contracts.specrt.is_deepcopy": _spec_is_deepcopy,
